@@ -1,0 +1,9 @@
+//go:build verif
+
+package httpserver
+
+// Test-only exports for the /verif harness (property C01). Add-only; compiled
+// only with the "verif" build tag.
+
+// VerifStandardizeAddress exposes standardizeAddress.
+func VerifStandardizeAddress(str string) (Address, error) { return standardizeAddress(str) }
